@@ -123,6 +123,142 @@ def announceR {V E : Type} [DecidableEq E] (o : Oracle V E) (e : Entry V E) (now
 def announce {V E : Type} [DecidableEq E] (o : Oracle V E) (e : Entry V E) (now : Int) (ev : Ev V E) : Out V E :=
   announceR o e now (resolve o ev)
 
+/-! ### the time stamp argument -/
+
+/-- the `timestamp` argument of `announceUpdate` -/
+inductive TsArg where
+  | absent                -- `None` (the default)
+  | ticks (t : Int)       -- a finite number (`0` is Python's falsy `0` / `0.0`)
+  | nonfinite             -- `nan`, `inf`, `-inf`
+  deriving DecidableEq, Repr
+
+/-- lines 522-524: `if not timestamp or not math.isfinite(timestamp): timestamp = time.time()` — the time stamp
+the funnel works with, given the argument and what the clock would return -/
+def effTimestamp (arg : TsArg) (clock : Int) : Int :=
+  match arg with
+  | .absent => clock
+  | .ticks t => if t = 0 then clock else t
+  | .nonfinite => clock
+
+/-- does the call read the clock? (only then `time.time()` is evaluated) -/
+def readsClock (arg : TsArg) : Bool :=
+  match arg with
+  | .absent => true
+  | .ticks t => t == 0
+  | .nonfinite => true
+
+/-! ### parameter callbacks (`paramCallbacks`, `addCallback`, `registerCallbacks`) -/
+
+/-- how a call of a callback function ends (oracle): it returns, it raises `TypeError` (the documented case: an
+`update_<param>` that does not take the `<exc>` argument), or it raises another subclass of `Exception` -/
+inductive CbOutcome where
+  | ok
+  | typeError
+  | other
+  deriving DecidableEq, Repr
+
+/-- which outcomes the `except` clause around the callback call catches, given the class names it lists
+(generated from the source: `Generated.C05.callbackCaught`) -/
+def catches (names : List String) : CbOutcome → Bool
+  | .ok => true
+  | .typeError => names.any (fun n => n == "TypeError" || n == "Exception" || n == "BaseException")
+  | .other => names.any (fun n => n == "Exception" || n == "BaseException")
+
+/-- lines 547-551: the loop over the callbacks; `true` = the loop ran to its end, `false` = an exception escaped
+(the rest of `announceUpdate`, i.e. the notification, is skipped) -/
+def runCallbacks (caught : CbOutcome → Bool) : List CbOutcome → Bool
+  | [] => true
+  | oc :: rest => if caught oc then runCallbacks caught rest else false
+
+/-- `announceUpdate` with callbacks: they run after value, time stamp and error are stored and before the
+dispatcher is told -/
+def announceC {V E : Type} [DecidableEq E] (o : Oracle V E) (caught : CbOutcome → Bool) (e : Entry V E) (now : Int)
+    (r : VE V E) (cbs : List CbOutcome) : Out V E :=
+  if emits o e now r then
+    let e' := commit (storeValue e r) now r
+    if runCallbacks caught cbs then ⟨e', some (mkMsg e')⟩ else ⟨e', none⟩
+  else ⟨storeValue e r, none⟩
+
+/-! ### callbacks that re-enter the funnel of another parameter (`registerCallbacks`: `update_<param>` of a
+following module assigning its own parameter, or `autoupdate` → `modobj.announceUpdate(pname, value, err)`) -/
+
+/-- the nested call a callback makes: parameter (of the follower), the time stamp it works with, the resolved
+value-or-error and the outcomes of the follower parameter's own callbacks (which do not re-enter: depth 1) -/
+structure Nested (V E : Type) where
+  q : Nat
+  now : Int
+  r : VE V E
+  cbs : List CbOutcome
+  deriving Repr
+
+/-- what one callback does: possibly a nested call, then how it ends -/
+structure Cb (V E : Type) where
+  nested : Option (Nested V E)
+  oc : CbOutcome
+  deriving Repr
+
+def setE {V E : Type} (es : Nat → Entry V E) (p : Nat) (e : Entry V E) : Nat → Entry V E :=
+  fun q => if q = p then e else es q
+
+structure CbRun (V E : Type) where
+  es : Nat → Entry V E
+  msgs : List (Nat × Msg V E)
+  completed : Bool
+
+/-- the nested call of one callback (a callback re-entering the parameter that is being announced is not modelled) -/
+def nestedCall {V E : Type} [DecidableEq E] (o : Oracle V E) (caught : CbOutcome → Bool) (p : Nat)
+    (es : Nat → Entry V E) : Option (Nested V E) → (Nat → Entry V E) × List (Nat × Msg V E)
+  | none => (es, [])
+  | some n =>
+    if n.q = p then (es, []) else
+    let out := announceC o caught (es n.q) n.now n.r n.cbs
+    (setE es n.q out.entry, out.msg.toList.map (fun m => (n.q, m)))
+
+/-- the callback loop of a call on parameter `p` over the entries of all parameters -/
+def runCbs {V E : Type} [DecidableEq E] (o : Oracle V E) (caught : CbOutcome → Bool) (p : Nat) :
+    (Nat → Entry V E) → List (Cb V E) → CbRun V E
+  | es, [] => ⟨es, [], true⟩
+  | es, cb :: rest =>
+    let n := nestedCall o caught p es cb.nested
+    if caught cb.oc then
+      let r := runCbs o caught p n.1 rest
+      ⟨r.es, n.2 ++ r.msgs, r.completed⟩
+    else ⟨n.1, n.2, false⟩
+
+structure MOut (V E : Type) where
+  es : Nat → Entry V E
+  msgs : List (Nat × Msg V E)        -- in the order the dispatcher is told
+
+/-- `announceUpdate` on parameter `p` with callbacks that may call the funnel of other parameters -/
+def announceM {V E : Type} [DecidableEq E] (o : Oracle V E) (caught : CbOutcome → Bool) (es : Nat → Entry V E)
+    (p : Nat) (now : Int) (r : VE V E) (cbs : List (Cb V E)) : MOut V E :=
+  if emits o (es p) now r then
+    let e' := commit (storeValue (es p) r) now r
+    let c := runCbs o caught p (setE es p e') cbs
+    ⟨c.es, c.msgs ++ (if c.completed then [(p, mkMsg (c.es p))] else [])⟩
+  else ⟨setE es p (storeValue (es p) r), []⟩
+
+/-- one top-level call of the funnel on parameter `p` with what its callbacks do -/
+structure MEv (V E : Type) where
+  p : Nat
+  now : Int
+  r : VE V E
+  cbs : List (Cb V E)
+  deriving Repr
+
+/-- a history of top-level calls over the entries of all parameters -/
+def runM {V E : Type} [DecidableEq E] (o : Oracle V E) (caught : CbOutcome → Bool) :
+    (Nat → Entry V E) → List (MEv V E) → MOut V E
+  | es, [] => ⟨es, []⟩
+  | es, x :: xs =>
+    let out := announceM o caught es x.p x.now x.r x.cbs
+    let r := runM o caught out.es xs
+    ⟨r.es, out.msgs ++ r.msgs⟩
+
+/-- the messages of one parameter in a stream -/
+def projM {V E : Type} (q : Nat) (ms : List (Nat × Msg V E)) : List (Msg V E) :=
+  (ms.filter (fun m => m.1 == q)).map (·.2)
+
 /-! ### event producers -/
 
 /-- outcome of the driver's `read_<p>` -/
@@ -194,6 +330,23 @@ structure Run (V E : Type) where
   entry : Entry V E
   msgs : List (Msg V E)
   deriving Repr
+
+/-- one call of the funnel with the outcomes of the callbacks registered for the parameter -/
+structure CEv (V E : Type) where
+  now : Int
+  r : VE V E
+  cbs : List CbOutcome
+  deriving Repr
+
+def CEv.plain {V E : Type} (x : CEv V E) : REv V E := ⟨x.now, x.r⟩
+
+def runC {V E : Type} [DecidableEq E] (o : Oracle V E) (caught : CbOutcome → Bool) :
+    Entry V E → List (CEv V E) → Run V E
+  | e, [] => ⟨e, []⟩
+  | e, x :: xs =>
+    let out := announceC o caught e x.now x.r x.cbs
+    let r := runC o caught out.entry xs
+    ⟨r.entry, out.msg.toList ++ r.msgs⟩
 
 def runR {V E : Type} [DecidableEq E] (o : Oracle V E) : Entry V E → List (REv V E) → Run V E
   | e, [] => ⟨e, []⟩
